@@ -1,13 +1,9 @@
 #!/usr/bin/env python3
-"""Regenerate lean/Toq.lean so that the default target builds every module present."""
-import os
+"""Regenerate lean/Toq.lean: the default target builds the property modules of every claimed check."""
+import json, os
 HERE = os.path.dirname(os.path.dirname(os.path.abspath(__file__)))
-root = os.path.join(HERE, "lean", "Toq")
-mods = []
-for d, _, names in os.walk(root):
-    for n in sorted(names):
-        if n.endswith(".lean"):
-            rel = os.path.relpath(os.path.join(d, n), os.path.join(HERE, "lean"))[:-5].replace(os.sep, ".")
-            mods.append(rel)
-open(os.path.join(HERE, "lean", "Toq.lean"), "w").write("".join(f"import {m}\n" for m in sorted(mods)))
-print(len(mods), "modules")
+man = json.load(open(os.path.join(HERE, "MANIFEST.json")))
+pids = sorted(c["property_id"] for c in man["checks"])
+mods = [f"Toq.Properties.{p}" for p in pids if os.path.exists(os.path.join(HERE, "lean", "Toq", "Properties", f"{p}.lean"))]
+open(os.path.join(HERE, "lean", "Toq.lean"), "w").write("".join(f"import {m}\n" for m in mods))
+print(mods)
